@@ -400,7 +400,7 @@ func TestOrderPairs(t *testing.T) {
 func TestSorts(t *testing.T) {
 	harness.Run(t, harness.Spec[[]id3]{
 		Name: "sorts", N: 3000,
-		Rule: "random lists (0..40) of elements with duplicates and near-duplicates; Elements.Sort, ElementIDs.Sort and FeatureIDs.Sort must equal a reference sort by (kind rank, ref, version) and be a permutation of the input; non-trivial = list mixes kinds and has >= 2 entries sharing (kind,ref)",
+		Rule: "random lists (0..40) of elements with duplicates and near-duplicates; Elements.Sort, ElementIDs.Sort and FeatureIDs.Sort must equal a reference sort by (kind rank, ref, version) and be a permutation of the input (for Elements: of the input objects, also when several distinct objects carry the same id); non-trivial = list mixes kinds and has >= 2 entries sharing (kind,ref)",
 		Gen: func(t *rapid.T) []id3 {
 			n := rapid.IntRange(0, 40).Draw(t, "n")
 			out := make([]id3, 0, n)
@@ -439,7 +439,22 @@ func TestSorts(t *testing.T) {
 					els = append(els, &osm.Relation{ID: osm.RelationID(k.Ref), Version: int(k.Ver)})
 				}
 			}
+			// the element objects themselves must survive: the output is a
+			// permutation of the input objects, also when several objects share
+			// (kind, ref, version)
+			count := map[osm.Element]int{}
+			for _, e := range els {
+				count[e]++
+			}
 			els.Sort()
+			for _, e := range els {
+				count[e]--
+			}
+			for e, n := range count {
+				if n != 0 {
+					return harness.Failf("C10/sort", "Elements.Sort is not a permutation of its input: object %v appears %d times more in the input than in the output (input %v)", e.ElementID(), n, in)
+				}
+			}
 			eids.Sort()
 			fids.Sort()
 			if len(els) != len(want) || len(eids) != len(want) || len(fids) != len(want) {
